@@ -380,19 +380,19 @@ func cmdCheck(args []string) int {
 		"seed":        seed,
 		"level":       "proof",
 		"coverage": map[string]interface{}{
-			"obligations":              claimed,
-			"discharged":               discharged,
-			"checker_cmd":              fmt.Sprintf("./check %s %s", prop, tier),
-			"trusted_base":             trustedBase,
-			"samples":                  samples,
-			"functions_under_contract": fucs,
-			"by_backend":               byBackend,
-			"solver_time_s":            solverTime,
-			"path_instances":           len(all),
-			"lemmas":                   len(lemObls),
+			"obligations":               claimed,
+			"discharged":                discharged,
+			"checker_cmd":               fmt.Sprintf("./check %s %s", prop, tier),
+			"trusted_base":              trustedBase,
+			"samples":                   samples,
+			"functions_under_contract":  fucs,
+			"by_backend":                byBackend,
+			"solver_time_s":             solverTime,
+			"path_instances":            len(all),
+			"lemmas":                    len(lemObls),
 			"known_finding_obligations": known,
-			"bounded_checks":           bounded,
-			"explanation":              "each obligation is one SMT query generated from the go/ssa form of the function in /repo's working tree; 'discharged' counts named obligations all of whose path instances were unsat (cover obligations: sat)",
+			"bounded_checks":            bounded,
+			"explanation":               "each obligation is one SMT query generated from the go/ssa form of the function in /repo's working tree; 'discharged' counts named obligations all of whose path instances were unsat (cover obligations: sat)",
 		},
 		"assumptions": assumptions,
 		"wall_s":      time.Since(start).Seconds(),
